@@ -264,7 +264,7 @@ def r1_purity(ctx):
     ctx.check(R, not s.mut and not s.self_writes, g.node, g, f'{m} effects', f'{m}() mutates {sorted(effects.fmt_path(*k) for k in s.mut)}')
 
 
-def r4_exception_discipline(ctx):
+def r4_exception_discipline(ctx, resolve_only=False):
   R = 'C11.R4'
   ctx.rule(R, 'unsupported rules: skipped silently at resolution, rejected before any state change at update', floor=2)
   cg = callgraph.get(ctx)
@@ -301,6 +301,8 @@ def r4_exception_discipline(ctx):
   args = [ast.unparse(a) for a in call.args]
   ctx.check(R, len(args) == 3 and args[1] == f.pos_params[1] and 'algorithm_key' in args[0] and 'op_config' in args[2], call, f, call,
             'the support check must be asked about (rule algorithm, the TARGET operator, rule config)')
+  if resolve_only:
+    return
   # update time: the check dominates every state mutation
   a = ctx.repo.func(f'{RM}.add_quantization_config')
   ctx.instance(R)
